@@ -97,6 +97,19 @@ CHECKS = {
         "exhaustive table enumeration x Hypothesis value generation; round-trip and differential against an independent encoder; metamorphic call forms",
         "DESIGN.md 4/C07",
     ),
+    "C08": (
+        "exploration",
+        "For every protocol version, frames derived from reference-encoded valid responses/callbacks by truncation at every "
+        "length (for a rotating twelfth of all 2,751 commands in quick, all in thorough), byte flips, frame-ID substitution "
+        "(known/unknown), sequence substitution, trailing junk, and random strings, with and without a pending command, plus "
+        "an atheris coverage-guided campaign with the oracle inside the target. Checked: no exception leaves "
+        "EZSP.frame_received; the pending call ends only legitimately (own sequence AND own frame ID, InvalidCommandError from "
+        "an invalidCommand frame with its sequence, or timeout not before 10 s); callbacks fire exactly for known-ID frames "
+        "that decode and answer no pending call; a fresh getNodeId round trip works afterwards.",
+        "Decodability of a payload is judged with bellows' own deserializer (C07 covers codec correctness).",
+        "Hypothesis mutation of valid frames + exhaustive truncation + atheris coverage-guided fuzzing with a containment oracle",
+        "DESIGN.md 4/C08",
+    ),
 }
 
 NOT_YET = "check not built yet in this session (planned, see DESIGN.md section 4)"
